@@ -46,7 +46,7 @@ FromHeader(h) ==
    icount |-> p.icount, obs |-> <<>>, kbd |-> p.kbd, disp |-> p.disp,
    devs |-> [i \in 1..Len(r.devs) |-> DevOf(r.devs[i])], ports |-> PairsFn(r.ports),
    ireg |-> PairsFn(r.ireg), flags |-> FlagsOf(r.flags), alloca |-> AllocaSeq(r.alloca),
-   srdefs |-> <<>>, base |-> h, bps |-> {}, pause |-> "Unsuccessful", devn |-> {}, mark |-> [reg |-> <<>>, psr |-> 0, pc |-> 0, kbd |-> <<>>, disp |-> <<>>, memw |-> <<>>, ssp |-> NoW]]
+   srdefs |-> <<>>, base |-> h, bps |-> {}, pause |-> "Unsuccessful", devn |-> {}, drift |-> FALSE, mark |-> [reg |-> <<>>, psr |-> 0, pc |-> 0, kbd |-> <<>>, disp |-> <<>>, memw |-> <<>>, ssp |-> NoW]]
 
 ---------------------------------------------------------------------------
 \* comparison of the specification state with a logged projection
@@ -279,8 +279,10 @@ ApplyHost(s0, r) ==
 \* try_write deviations explain is reported under their names.
 EndBad(s, r) ==
   IF "expect_disp" \notin DOMAIN r THEN {}
-  ELSE IF s.disp = r.expect_disp /\ s.kbd = r.expect_kbd THEN {}
-  ELSE IF s.devn # {} THEN { "lost-byte:" \o d : d \in s.devn } ELSE {"lost-byte"}
+  \* the verdict is on the REAL display and keyboard queue (r.proj); a loss counts as explained by
+  \* the transcribed deviations only if the specification, run with them, ends in the same state
+  ELSE IF r.proj.disp = r.expect_disp /\ r.proj.kbd = r.expect_kbd THEN {}
+  ELSE IF s.devn # {} /\ ~s.drift /\ s.disp = r.proj.disp /\ s.kbd = r.proj.kbd THEN { "lost-byte:" \o d : d \in s.devn } ELSE {"lost-byte"}
 
 Apply(s, r) ==
   CASE r.ev = "Step" -> ApplyStep(s, r)
@@ -295,13 +297,33 @@ Init == /\ l \in { k \in 1..N : Rec[k].ev = "New" }
         /\ st = FromHeader(l)
         /\ why = IF NewOK(l) THEN {} ELSE {"newok"}
 
-Next == /\ why = {}
-        /\ l + 1 <= N
+\* When an event is rejected the specification state is re-synchronised with the logged projection
+\* (everything the projection carries; memory = memory before the event + the logged diff), so that
+\* the REST of the run is still checked event by event instead of being abandoned at the first
+\* difference.  `drift` remembers that this happened (a later end-of-run loss is then not attributed
+\* to the transcribed deviations).
+Resync(pre, post, p) ==
+  LET diffA == { q[1] : q \in SeqSet(p.memdiff) }
+      dval(a) == LET q == CHOOSE q \in SeqSet(p.memdiff) : q[1] = a IN W(q[2], q[3])
+  IN [post EXCEPT !.pc = p.pc, !.psr = p.psr, !.reg = [i \in 1..8 |-> WP(p.regs[i])], !.ssp = WP(p.ssp),
+                  !.mcr = B(p.mcr), !.prefetch = B(p.prefetch), !.fno = p.fno, !.icount = p.icount,
+                  !.frames = IF B(p.dbgf) THEN [i \in 1..Len(p.frames) |-> FrameOf(p.frames[i])] ELSE @,
+                  !.obs = [a \in { q[1] : q \in SeqSet(p.obs) } |-> (CHOOSE q \in SeqSet(p.obs) : q[1] = a)[2]],
+                  !.kbd = p.kbd, !.disp = p.disp, !.alloca = AllocaSeq(p.alloca),
+                  !.devs = [j \in 1..Len(@) |->
+                              IF @[j].k = "timer" THEN [@[j] EXCEPT !.time = p.timers[@[j].slot], !.en = B(p.timer_en[@[j].slot])]
+                              ELSE IF @[j].k = "kbd" /\ j = 2 THEN [@[j] EXCEPT !.ie = B(p.kbdie)] ELSE @[j]],
+                  !.memw = [a \in (DOMAIN pre.memw) \cup diffA |-> IF a \in diffA THEN dval(a) ELSE pre.memw[a]],
+                  !.dirty = <<>>, !.drift = TRUE]
+
+Next == /\ l + 1 <= N
         /\ Rec[l + 1].ev # "New"
         /\ LET r == Rec[l + 1]
                x == Apply(st, r)
-           IN /\ st' = x.st
-              /\ why' = x.bad \cup (IF r.ev \in {"Step", "Host", "End", "Run"} THEN Mismatch(x.st, r.proj) ELSE {})
+               hasproj == r.ev \in {"Step", "Host", "End", "Run"}
+               bad == x.bad \cup (IF hasproj THEN Mismatch(x.st, r.proj) ELSE {})
+           IN /\ st' = IF bad = {} \/ ~hasproj THEN x.st ELSE Resync(st, x.st, r.proj)
+              /\ why' = bad
         /\ l' = l + 1
 
 Spec == Init /\ [][Next]_vars
